@@ -308,7 +308,7 @@ def work_runs(tier, hb=0):
                                                       'env.wait-timed-out'],
                preempt=p2, W=2, max=1, put=0, late=1, burst=1, hb=hb),
         mt_run('idle-timeout.coincides-with-submit', h, base + ['sched:simultaneous-timeouts', 'work.quiescent'],
-               preempt=p2, W=2, max=1, put=0, late=1, lateat=10, burst=1, hb=hb),
+               preempt=p2, W=2, max=1, put=0, late=1, lateat=11, burst=1, hb=hb),
         mt_run('continuation.put-late', h, base + ['work.continuation-from-worker', 'work.pool-released',
                                                    'work.two-items-in-parallel'],
                preempt=1 if q else 2, W=3, max=2, put=3, cont=1, burst=2, hb=hb),
